@@ -93,6 +93,25 @@ func (w *PullWorld) authHeader(op *PullOp, r *RouteSpec, admin bool) (vals []str
 			return nil, &yes // no admin tokens configured: open
 		}
 	}
+	unbound := false
+	if len(allowed) == 0 {
+		// no route (unknown endpoint) and no global allowlist: no token list
+		// applies, the contract does not say whether the caller is turned away
+		// as unauthorised or because the endpoint does not exist. Any route's
+		// token will do for the request.
+		unbound = true
+		for _, o := range w.pullRoutes() {
+			allowed = append(allowed, w.allowlist(o)...)
+		}
+		if len(allowed) == 0 {
+			allowed = []string{"no-token-configured"}
+		}
+	}
+	defer func() {
+		if unbound {
+			authorised = nil
+		}
+	}()
 	good := allowed[0]
 	other := "not-a-token"
 	for _, o := range w.pullRoutes() {
@@ -103,7 +122,10 @@ func (w *PullWorld) authHeader(op *PullOp, r *RouteSpec, admin bool) (vals []str
 		}
 	}
 	if admin {
-		other = w.Spec.PullTokens[0]
+		other = "pull-side-token"
+		if len(w.Spec.PullTokens) > 0 {
+			other = w.Spec.PullTokens[0]
+		}
 	}
 	switch op.Token {
 	case "ok_route", "ok_global":
@@ -588,6 +610,24 @@ func RunPullProgram(p *Program) *Result {
 	}
 	spec := *sys.Spec
 	sw, err := NewSysWorld(&spec, p.Offset, SysOptions{Seed: 1})
+	if open := openPullRoute(&spec); open != "" {
+		// C11: a configuration that would leave a pull route without any token
+		// must be refused; it never runs
+		res := &Result{}
+		res.Ops++
+		res.logf("configuration leaves pull route %s without any token (no global pull_api token, none of its own)", open)
+		if err != nil {
+			res.logf("refused: %s", firstLine(err.Error()))
+			res.probe("config.refused.open_pull_route")
+			return res
+		}
+		sw.Close()
+		v := viol("C11.compile.open_route", "C11", "a configuration was accepted although pull route %s has an empty effective token allowlist (its endpoint then serves callers without a token)", open)
+		v.Loc = "pull/compile"
+		res.Violations = append(res.Violations, v)
+		res.logf("  VIOLATION %s", v.String())
+		return res
+	}
 	if err != nil {
 		return &Result{Trouble: "node: " + err.Error() + "\n" + spec.Render()}
 	}
@@ -626,6 +666,13 @@ func RunPullProgram(p *Program) *Result {
 			}
 			ok := t.Result.(bool)
 			w.Res.logf("reload -> ok=%v", ok)
+			if open := openPullRoute(s.NewSpec); open != "" {
+				if ok {
+					w.add("C11.compile.open_route", "C11", "pull/reload", "a reload was accepted although it leaves pull route %s with an empty effective token allowlist", open)
+				} else {
+					w.Res.probe("reload.refused.open_pull_route")
+				}
+			}
 			if ok {
 				w.Spec = s.NewSpec
 				w.Res.probe("reload.ok")
@@ -647,6 +694,25 @@ func RunPullProgram(p *Program) *Result {
 // ---- generator ---------------------------------------------------------------
 
 var pullTokenVariants = []string{"ok_route", "ok_route", "ok_route", "ok_last", "other_route", "none", "basic", "empty", "prefix", "suffix", "case", "lower_scheme", "raw", "two_values"}
+
+// openPullRoute names a pull route that has neither tokens of its own nor a
+// global pull_api allowlist to fall back on ("" if there is none).
+func openPullRoute(spec *SysSpec) string {
+	for i := range spec.Routes {
+		r := &spec.Routes[i]
+		if r.PullPath != "" && len(r.PullTokens) == 0 && len(spec.PullTokens) == 0 {
+			return r.Path
+		}
+	}
+	return ""
+}
+
+func firstLine(s string) string {
+	if i := strings.IndexByte(s, '\n'); i >= 0 {
+		return s[:i]
+	}
+	return s
+}
 
 func GenPullProgram(t *rapid.T, authHeavy bool) *Program {
 	p := &Program{World: "pull"}
@@ -671,6 +737,16 @@ func GenPullProgram(t *rapid.T, authHeavy bool) *Program {
 			r.Channel = "internal"
 		}
 		spec.Routes = append(spec.Routes, r)
+	}
+	if rapid.IntRange(0, 9).Draw(t, "no_global?") == 0 {
+		// no global allowlist: every pull route needs tokens of its own, else the
+		// configuration has to be refused
+		spec.PullTokens = nil
+		for i := range spec.Routes {
+			if len(spec.Routes[i].PullTokens) == 0 && rapid.IntRange(0, 3).Draw(t, "still_none") != 0 {
+				spec.Routes[i].PullTokens = []string{fmt.Sprintf("route%d-tok", i)}
+			}
+		}
 	}
 	if rapid.IntRange(0, 2).Draw(t, "max_batch?") == 0 {
 		spec.MaxBatch = rapid.IntRange(1, 3).Draw(t, "max_batch")
@@ -757,7 +833,9 @@ func GenPullProgram(t *rapid.T, authHeavy bool) *Program {
 			b, _ := json.Marshal(cur)
 			var ns SysSpec
 			_ = json.Unmarshal(b, &ns)
-			switch rapid.IntRange(0, 2).Draw(t, "rk") {
+			switch rapid.IntRange(0, 3).Draw(t, "rk") {
+			case 3:
+				ns.PullTokens = nil // legal only if every route has tokens of its own
 			case 0:
 				ns.PullTokens = []string{"global-tok-rotated"}
 			case 1:
